@@ -6,7 +6,7 @@ class C10(vlib.Spec):
     model_vo = ["theories/Coll/ModelVC.vo"]
     props_vo = "theories/Props/C10.vo"
     theorems = ["C10_history", "C10_spec_is_multiset", "C10_set_equality", "C10_counted_equality",
-                "C10_duplicate_counted", "C10_holds_b_sound", "C10_counted_extend_trace_refuted"]
+                "C10_duplicate_counted", "C10_holds_b_sound"]
     crate, group, binary = "h_coll", "light", "h_coll"
     imports = "From HV Require Import Coll.ModelVC."
     harness_shards = 4
